@@ -185,7 +185,18 @@ type Probe struct {
 	Proto string `json:"proto"` // tcp | udp | icmp
 	Port  int    `json:"port"`  // destination port (icmp: the ICMP type)
 	Flags int    `json:"flags,omitempty"`
-	SPort int    `json:"sport,omitempty"`
+	SPort int    `json:"sport,omitempty"` // tcp/udp source port (udp: 0 = 40000+src)
+	PLen  int    `json:"plen,omitempty"`  // udp/icmp: payload bytes = PLen-1 when > 0 (0 = 4 bytes)
+}
+
+func (p Probe) payload() []byte {
+	n := 4
+	if p.PLen > 0 {
+		n = p.PLen - 1
+	}
+	b := make([]byte, n)
+	copy(b, "scan")
+	return b
 }
 
 type SInput struct {
@@ -221,17 +232,24 @@ func frame(p Probe) []byte {
 	switch p.Proto {
 	case "udp":
 		proto = 17
-		l4 = make([]byte, 8+4)
-		binary.BigEndian.PutUint16(l4[0:], uint16(40000+p.Src))
+		pl := p.payload()
+		l4 = make([]byte, 8+len(pl))
+		sp := 40000 + p.Src
+		if p.SPort != 0 {
+			sp = p.SPort
+		}
+		binary.BigEndian.PutUint16(l4[0:], uint16(sp))
 		binary.BigEndian.PutUint16(l4[2:], uint16(p.Port))
 		binary.BigEndian.PutUint16(l4[4:], uint16(len(l4)))
-		copy(l4[8:], "scan")
+		copy(l4[8:], pl)
 	case "icmp":
 		proto = 1
-		l4 = make([]byte, 8+4)
-		l4[0] = byte(p.Port) // type (8 = echo request)
+		pl := p.payload()
+		l4 = make([]byte, 8+len(pl)) // 8 bytes = an echo request without data
+		l4[0] = byte(p.Port)         // type (8 = echo request)
 		binary.BigEndian.PutUint16(l4[4:], 0x1234)
 		binary.BigEndian.PutUint16(l4[6:], 1)
+		copy(l4[8:], pl)
 	case "tcp":
 		proto = 6
 		l4 = make([]byte, 20)
@@ -502,11 +520,7 @@ func kindN(p string) int {
 	return 2
 }
 
-func scanCoq(id int, in SInput, ob SObs) string {
-	var ps []string
-	for _, p := range in.Probes {
-		ps = append(ps, fmt.Sprintf("P %d %d %d %d", p.Src, kindN(p.Proto), p.Port, p.Flags))
-	}
+func coqTicks(ob SObs) string {
 	var ts []string
 	for _, t := range ob.Ticks {
 		var es []string
@@ -519,11 +533,20 @@ func scanCoq(id int, in SInput, ob SObs) string {
 		}
 		ts = append(ts, hx.CoqList(es, "ev"))
 	}
+	return hx.CoqList(ts, "(list ev)")
+}
+
+func scanCoq(id int, in SInput, ob SObs) string {
+	var ps []string
+	for _, p := range in.Probes {
+		ps = append(ps, fmt.Sprintf("P %d %d %d %d", p.Src, kindN(p.Proto), p.Port, p.Flags))
+	}
+	ticks := coqTicks(ob)
 	live := "false"
 	if in.Live {
 		live = "true"
 	}
-	return fmt.Sprintf("(mkS %d %s %s %s)%%N", id, live, hx.CoqList(ps, "probe"), hx.CoqList(ts, "(list ev)"))
+	return fmt.Sprintf("(mkS %d %s %s %s)%%N", id, live, hx.CoqList(ps, "probe"), ticks)
 }
 
 var udpPorts = []int{7, 1000, 1001, 9999, 65535, 0, 54, 5061}
@@ -532,13 +555,14 @@ var tcpPorts = []int{80, 443, 23, 8080, 1000, 22, 65535}
 func genProbe(r *hx.Rand, src int, sport *int) Probe {
 	switch r.Intn(10) {
 	case 0, 1, 2, 3, 4:
-		return Probe{Src: src, Proto: "udp", Port: udpPorts[r.Intn(len(udpPorts))]}
+		return Probe{Src: src, Proto: "udp", Port: udpPorts[r.Intn(len(udpPorts))],
+			SPort: r.PickInt([]int{0, 0, 53, 123, 161, 162, 1900, 5060, 22, 65535}), PLen: r.PickInt([]int{0, 1, 2, 5, 33})}
 	case 5, 6:
 		ty := 8
 		if r.Chance(1, 5) {
 			ty = r.PickInt([]int{0, 13, 17, 3})
 		}
-		return Probe{Src: src, Proto: "icmp", Port: ty}
+		return Probe{Src: src, Proto: "icmp", Port: ty, PLen: r.PickInt([]int{0, 1, 1, 2, 57})}
 	}
 	*sport++
 	fl := 2
@@ -588,6 +612,7 @@ func scanInputs(r *hx.Rand, tier string) []SInput {
 		SInput{Probes: []Probe{syn(0, 80, 20001), syn(0, 443, 20002), syn(0, 80, 20003)}, Ticks: T},
 		SInput{Probes: []Probe{udp(0, 1000), udp(0, 1001), udp(0, 1000), udp(0, 7), udp(0, 1001)}, Ticks: T},
 		SInput{Probes: []Probe{icmp(0), icmp(0), icmp(0)}, Ticks: T},
+		SInput{Probes: []Probe{{Src: 0, Proto: "icmp", Port: 8, PLen: 1}, {Src: 1, Proto: "icmp", Port: 8, PLen: 2}, {Src: 1, Proto: "udp", Port: 7, SPort: 53, PLen: 1}, {Src: 0, Proto: "udp", Port: 69, SPort: 123}}, Ticks: T},
 		SInput{Probes: []Probe{icmp(0), udp(0, 7), syn(0, 80, 20001), udp(0, 7), icmp(0)}, Ticks: T},
 		SInput{Probes: []Probe{udp(0, 1), udp(1, 2), udp(2, 3), udp(3, 4), icmp(0), icmp(1), icmp(2), icmp(3)}, Ticks: T},
 	)
@@ -637,9 +662,14 @@ func scanInputs(r *hx.Rand, tier string) []SInput {
 		for j := 0; j < total; j++ {
 			sidx := r.Intn(ns)
 			if protoOf[sidx] == "udp" {
-				ps = append(ps, udp(sidx, udpPorts[r.Intn(len(udpPorts))]))
+				p := udp(sidx, udpPorts[r.Intn(len(udpPorts))])
+				p.SPort = r.PickInt([]int{0, 53, 5060, 40001})
+				p.PLen = r.PickInt([]int{0, 1, 9})
+				ps = append(ps, p)
 			} else {
-				ps = append(ps, icmp(sidx))
+				p := icmp(sidx)
+				p.PLen = r.PickInt([]int{0, 1, 2})
+				ps = append(ps, p)
 			}
 		}
 		ins = append(ins, SInput{Probes: ps, Ticks: T, Live: true})
@@ -713,11 +743,20 @@ func main() {
 		var probe struct {
 			NOps   int     `json:"nops"`
 			Probes []Probe `json:"probes"`
+			Frames []hx.B  `json:"frames"`
 		}
 		if err := hx.LoadReplay(o.Only, &probe); err != nil {
 			hx.Fatal("replay: %v", err)
 		}
-		if probe.NOps > 0 {
+		if len(probe.Frames) > 0 {
+			var in FInput
+			hx.LoadReplay(o.Only, &in)
+			if in.Ticks == 0 {
+				in.Ticks = 3
+			}
+			ob, crash := runFramesRetry(in)
+			hx.Write(o, "C20", "frame", frameHeader, "fcase", []hx.Case{{ID: 0, Kind: "frames", Input: in, Obs: ob, Crash: crash, Coq: frameCoq(0, in, ob)}}, map[string]int{"replay": 1}, nil, 8)
+		} else if probe.NOps > 0 {
 			var in UInput
 			hx.LoadReplay(o.Only, &in)
 			hx.Write(o, "C20", "uset", usetHeader, "ucase", []hx.Case{usetCase(0, in)}, map[string]int{"replay": 1}, nil, 8)
@@ -741,6 +780,22 @@ func main() {
 	sins := scanInputs(r, o.Tier)
 	sobs := make([]SObs, len(sins))
 	scr := make([]string, len(sins))
+	fins := frameInputs(r, o.Tier)
+	fobs := make([]SObs, len(fins))
+	fcr := make([]string, len(fins))
+	frameDone := make(chan struct{})
+	go func() {
+		var wg sync.WaitGroup
+		for i := range fins {
+			wg.Add(1)
+			go func(i int) {
+				defer wg.Done()
+				fobs[i], fcr[i] = runFramesRetry(fins[i])
+			}(i)
+		}
+		wg.Wait()
+		close(frameDone)
+	}()
 	scanDone := make(chan struct{})
 	go func() {
 		const batch = 320
@@ -794,6 +849,20 @@ func main() {
 		scases = append(scases, hx.Case{ID: i, Kind: kind, Input: in, Obs: sobs[i], Crash: scr[i], Coq: scanCoq(i, in, sobs[i])})
 	}
 	hx.Write(o, "C20", "scan", scanHeader, "scase", scases, sdist, nil, (len(scases)+11)/12)
+
+	<-frameDone
+	fdist := map[string]int{}
+	var fcases []hx.Case
+	for i, in := range fins {
+		fdist["frames:"+in.Class] += len(in.Frames)
+		n := 0
+		for _, t := range fobs[i].Ticks {
+			n += len(t)
+		}
+		fdist["events:"+in.Class] += n
+		fcases = append(fcases, hx.Case{ID: i, Kind: "frames", Input: in, Obs: fobs[i], Crash: fcr[i], Coq: frameCoq(i, in, fobs[i])})
+	}
+	hx.Write(o, "C20", "frame", frameHeader, "fcase", fcases, fdist, nil, 1)
 }
 
 const usetHeader = "From HT Require Import Common.Bytes C20.Model C20.Check.\nImport C20.Check.U."
